@@ -3,9 +3,9 @@ import multiprocessing as mp
 import os
 
 from ..lib import cbuild, tlc
-from ..lib.common import workdir, rmworkdir, seed, log
+from ..lib.common import workdir, rmworkdir, seed, log, MachineryError
 from ..lib.report import Report
-from ..drivers import simdrv, instrdrv
+from ..drivers import simdrv, instrdrv, replaylib
 from . import c05
 
 PID = 'C07'
@@ -52,3 +52,33 @@ def run(tier):
                 'z80.get_timing and is judged against Z80Asm!Text/Length and Z80!Decode timing by TLC')
     rmworkdir('c07')
     return rep.finish()
+
+
+def replay(path):
+    """./check C07 --replay replays/C07-n.json : ask the decoders of the current tree about the recorded bytes again (or run the
+    recorded single step on the four simulators again), judged by InstrCases / StepCases."""
+    d, rp = replaylib.load(path, PID)
+    wd = workdir('replay-c07')
+    found = []
+    if 'sk' in rp or 'opts' in rp:
+        replaylib.need(rp, path, 'key', 'pc', 'ov', 'opts')
+        cbuild.repo_only()
+        mem = list(simdrv.BASE)
+        for a, b in rp['ov']:
+            mem[a] = b
+        sk, tu, od = instrdrv.observe(mem, rp['pc'], rp['opts'])
+        c = {'key': rp['key'], 'pc': rp['pc'], 'ov': rp['ov'], 'opts': list(rp['opts']), 'sk': sk, 'tu': tu, 'od': od}
+        r, fails = tlc.judge('z80', 'InstrCases', 'InstrCases.cfg', [c], casefile=os.path.join(wd, 'instr.json'))
+        for _, clause in fails:
+            comp, _, cl = clause.partition(':')
+            found.append('instr:%s:%s:%s: at %d (opts %s) sk=%s tu=%s od=%s' % (c['key'], comp, cl, c['pc'], ','.join(c['opts']), sk, tu, od))
+    elif 'r' in rp:
+        c = c05.rerun_step(rp, path)
+        for _, clause in c05.judge_steps(Report(PID, 'replay'), [c], wd):
+            impl, _, cl = clause.partition(':')
+            if cl in ('pc', 't', 'exception'):
+                found.append('sim:%s:%s:%s: simulator %s step %s' % (c['key'].split('/')[0], impl, cl, impl, c['key']))
+    else:
+        raise MachineryError('unusable replay file %s: neither a decoder case nor a simulator step' % path)
+    rmworkdir('replay-c07')
+    return replaylib.verdict(PID, path, found)
